@@ -464,6 +464,9 @@ func (g *genState) genReopen() Op {
 			op.Tools = append(op.Tools, cands[rng.Intn(len(cands))])
 		}
 	}
+	if g.p.name != "protocol" && rng.Chance(20) {
+		op.Peek = rng.Range(1, 2)
+	}
 	g.cur = o
 	op.Open = &o
 	return op
